@@ -180,3 +180,7 @@ func init() {
 	claim("C09", "O1", "O2", "O3", "O4", "O5", "O7", "S4")
 	claim("C01", "O1")
 }
+
+func init() {
+	claim("C02", "N1", "N2", "N4", "N5", "N6", "N7", "F1")
+}
